@@ -45,6 +45,13 @@ def signalSpace [ReOrd K] (S : List K) (nsig : Option Nat) (threshold : Option K
       if cnt = 0 then 1 else cnt
     | none => critArgmin + 1
 
+/-- the divisor floor of the EV branch: `max(S[I], eps·S[0])` applied to every singular value (the code divides by a
+    noise singular value; one that is exactly zero — noiseless, exactly rank-deficient data — is replaced by `eps·S[0]`).
+    `eigenDenom`/`eigenPsd` below take the singular values AFTER this flooring as their argument `S`. -/
+def floorS [ReOrd K] (S : List K) (eps : K) : List K :=
+  let f := eps * nth S 0
+  S.map (fun s => if reGt f s then f else s)
+
 /-- the accumulated noise-subspace denominator at FFT bin `k`:
     `Σ_{i=nsig}^{P-1} |DFT(V[:,i])[k]|²` (MUSIC) or the same terms divided by `S_i` (EV) -/
 def eigenDenom (tw : List K) (cols : List (List K)) (S : List K) (nsig P nfft : Nat) (ev : Bool) (k : Nat) : K :=
